@@ -302,6 +302,9 @@ func valueEq(a, b Value) *Term {
 		return r
 	case *ArrayV:
 		y := b.(*ArrayV)
+		if w := wideArrayEq(x, y); w != nil { // models_c06.go: one wide equality when a side is the split of one term
+			return w
+		}
 		r := tTrue
 		for i := range x.E {
 			r = And(r, valueEq(x.E[i], y.E[i]))
